@@ -29,9 +29,9 @@ def _c16_score(c):
 SCORE = {'C14': _c14_score, 'C15': lambda c: 0, 'C16': _c16_score, 'C08': lambda c: int(c['skip']['mode'] != 'false')}
 CLAUSES = {
     'C14': ('applied-statements', 'returned-tree', 'status', 'entry-point', 'location-chain', 'provenance', 'recorded-imports'),
-    'C15': ('applied-statements', 'status', 'returned-tree', 'recorded-imports'),
+    'C15': ('applied-statements', 'status', 'returned-tree', 'recorded-imports', 'entry-point'),
     'C08': ('applied-statements', 'status'),
-    'C16': ('applied-statements', 'status', 'location-chain', 'provenance', 'restored', 'later-parse-as-fresh'),
+    'C16': ('applied-statements', 'status', 'location-chain', 'provenance', 'restored', 'later-parse-as-fresh', 'recorded-imports'),
 }
 
 
@@ -110,10 +110,14 @@ def run_into(rep, prop, tier, budget=None, only_focus=False):
       obs = P.run_case(c, salt=i + rep.seed)
       d = P.compare(c, obs)
       ek = None
-      if d is None and prop == 'C14' and c.get('entries') and (i % 2 == 0 or c.get('family') == 'locs'):
+      if d is None and c.get('entries') and ((prop == 'C14' and (i % 2 == 0 or c.get('family') == 'locs')) or
+                                             (prop == 'C15' and foc and any(b['val'][0] == 'unk' for b in c['result']['cfg']))):
         # the multi-file entry point, one argument form per case (all forms over the run)
         c['entry_binding'] = ENTRY_BINDING
         k = (i // 2) % len(c['entries'])
+        if prop == 'C15':
+          # the forms that finalize after several texts: a placeholder left by an earlier text must still be rejected
+          k = [0, 4, 6][i % 3]
         d = P.run_entry(c, k, salt=i + rep.seed)
         ek = k
         rep.nontrivial_case(core.jdump(['entry', c['entries'][k]['form'], c['entries'][k]['result']['status'], c['entries'][k]['result']['locked']]))
